@@ -392,6 +392,10 @@ class T:
         # (x + c1) + c2  ->  x + (c1 + c2)   (plain Add only: the checked form keeps its own overflow flag)
         if op == "Add" and b.op == "const" and a.op == "bin" and a.args[0] == "Add" and a.args[2].op == "const" and a.args[3] == ty:
             return T.bin("Add", a.args[1], T.const(ty, a.args[2].args[1] + b.args[1]), ty)
+        if base in ("Eq", "Ne") and op == base:
+            r = _struct_eq(a, b, 0)
+            if r is not None:
+                return r if base == "Eq" else T.un("Not", r, "bool")
         if base in ("Eq", "Le", "Ge") and a is b:
             return T.const("bool", 1)
         if base in ("Ne", "Lt", "Gt") and a is b:
@@ -408,6 +412,60 @@ class T:
 
 
 NEVER = Term("never")
+
+
+def _struct_eq(a, b, d):
+    """a == b for values whose shape is known: two constructor applications are equal iff the constructors agree and the fields are
+    equal; equality distributes over a decision node (`if c {A} else {B}` == K).  Returns a bool-valued term, or None when the
+    comparison is not structural (left to the generic Eq term)."""
+    if d > 6:
+        return None
+    TRUE, FALSE = T.const("bool", 1), T.const("bool", 0)
+    for x, y in ((a, b), (b, a)):
+        if x.op in ("ite", "mterm") and (y.op in ("agg", "const") and not y.has_tree()):
+            arms = []
+            for arm in ([x.args[1], x.args[2]] if x.op == "ite" else [v for _, v in x.args[1]]):
+                r = T.const("bool", 1) if arm is y else _struct_eq(arm, y, d + 1)
+                if r is None:
+                    return None
+                arms.append(r)
+            if x.op == "ite":
+                return _bool_ite(x.args[0], arms[0], arms[1])
+            return T.mterm(x.args[0], tuple((v, r) for (v, _), r in zip(x.args[1], arms)))
+    if a.op == "agg" and b.op == "agg" and a.args[0] == "adt" and b.args[0] == "adt" and a.args[1] == b.args[1]:
+        if a.args[3] != b.args[3]:
+            return FALSE
+        if len(a.args[4]) != len(b.args[4]):
+            return None
+        acc = TRUE
+        for p, q in zip(a.args[4], b.args[4]):
+            r = TRUE if p is q else _struct_eq(p, q, d + 1)
+            if r is None:
+                if p.op == "const" and q.op == "const":
+                    r = TRUE if p.args == q.args else FALSE
+                else:
+                    return None
+            if r is FALSE:
+                return FALSE
+            if r is not TRUE:
+                if acc is not TRUE:
+                    return None
+                acc = r
+        return acc
+    if a.op == "const" and b.op == "const" and a.args[0] == b.args[0]:
+        return TRUE if a.args[1] == b.args[1] else FALSE
+    return None
+
+
+def _bool_ite(c, x, y):
+    TRUE, FALSE = T.const("bool", 1), T.const("bool", 0)
+    if x is y:
+        return x
+    if x is TRUE and y is FALSE:
+        return c
+    if x is FALSE and y is TRUE:
+        return T.un("Not", c, "bool")
+    return T.ite(c, x, y)
 
 
 def _dist(t, f):
